@@ -74,6 +74,11 @@ def build(scen, pad):
             acts += [SetSwitchAction(_switch=s, _switch_action=SwitchAction.SET) for s in sws]
             # existing switches by number, switch 0 included (numbers are 0-based)
             acts += [SetSwitchAction(_switch=RichSwitch(_index=k), _switch_action=SwitchAction.CLEAR) for k in CARRIED_SWITCHES]
+            if scen >= 100:
+                # contradictory content: two different names for one switch number (a stale copy after a rename);
+                # whatever the library does with it, it must do the same under every hash seed
+                acts += [SetSwitchAction(_switch=RichSwitch(RichString("c14 door"), 9), _switch_action=SwitchAction.SET),
+                         SetSwitchAction(_switch=RichSwitch(RichString("c14 gate"), 9), _switch_action=SwitchAction.TOGGLE)]
             acts += [MinimapPingAction(_location=l) for l in locs]
             acts += [CreateUnitWithPropertiesAction(_group=players[1], _amount=1, _unit=units[9], _location=locs[0], _properties=c) for c in cus]
         triggers.append(RichTrigger(_conditions=conds, _actions=acts, _players={players[0], players[t % 8]}))
